@@ -193,7 +193,7 @@ def classify(g, unit, diags):
                         break
             if marker:
                 break
-        if marker is None and 'postcondition' in msg and clause is None:
+        if marker is None and (('postcondition' in msg and clause is None) or ('precondition' in msg and callee_clause is None)):
             # the failed clause is a trait-level `ensures` in a prelude (e.g. codeq::Decode::decode): its marker sits on the secondary span
             for s_ in spans:
                 if s_.get('is_primary'):
